@@ -12,6 +12,8 @@ CLAIMS = {
              note=LN + "Num over BigNum is read as Num over Int (justified by C05).", tech="Lean 4 proof (exactness + canonicity w.r.t. core Rat) + differential correspondence", ref="DESIGN.md §5 C06"),
  "C07": dict(text="Lean 4 theorems HyN.C07.cmp_lt_iff/cmp_eq_iff/cmp_gt_iff/cmp_nan_iff: partial_cmp of the model reports lt/eq/gt exactly when the Rat values are </=/>, and none exactly when a side is NaN, for all canonical operands. Tied to num.rs by differential runs on ordered pairs (equal, denominator-only differences, neighbours, NaN).",
              note=LN, tech="Lean 4 proof (order iff-lemmas over core Rat) + differential correspondence", ref="DESIGN.md §5 C07"),
+ "C09": dict(text="Lean 4 theorems HyN.C09.*: for every integer and base 2..36 reading back the rendering returns the integer (big_roundtrip) and the rendering is the conventional one (digits_conventional: optional minus, digits 0-9A-Z below the base with positional value |x|, no leading zero); for every canonical rational and NaN reading back the decimal rendering returns the same number (num_roundtrip, stack_restore); the digit loop and Horner loop written over limb arithmetic compute these Int-level functions (limb_level_text_refines, via C05). Tied to big_number.rs/num.rs by differential runs: all 35 bases, read-back of the implementation's own text, malformed texts, rationals.",
+             note=LN + "Base 1 and digits not below the base are outside the property.", tech="Lean 4 proof (round-trip and digit characterisation by induction on the digit loop; limb-level refinement) + differential correspondence", ref="DESIGN.md §5 C09"),
 }
 
 def main():
